@@ -10,14 +10,15 @@ SETUP = f"cd /verif/engine && {GOENV} go build -o /verif/bin/vcheck ./cmd/vcheck
 # id -> (engine, category, technique, level text, level note, design ref)
 TECH_A = "bounded symbolic execution of go/ssa (own SSA->SMT-LIB2 interpreter, z3) with native replay"
 TECH_B = "bounded model checking of an SSA-derived transition relation with a symbolic schedule (own encoder, z3), interpreter replay"
+TECH_P = "bounded symbolic execution of go/ssa in preemptive mode (own interpreter: every schedule with <= P preemptions at sync/atomic/channel/go operations as engine choices in the path trail, happens-before race detector, z3 for data), counterexamples confirmed by solver-free concrete re-execution in the interpreter"
 LEMMA = "Transition-level lemmas only: the composition from per-transition lemmas to the history/schedule-quantified statement is argued in DESIGN.md and is not machine-checked. "
 CLAIMED = {
- "C01": ("tsgen", "model_checking", TECH_B,
+ "C01": ("symgo+tsgen", "model_checking", TECH_B + "; real ring under concurrency: " + TECH_P,
   "The real Enqueue/Pause/Resume/process/processHandle SSA is compiled into a pc-indexed transition relation and unrolled K steps with the schedule as solver variables: every interleaving (at atomic-operation granularity) of <=3 caller threads and the dynamically spawned consumer goroutines within K steps is covered for: one handler at a time, no message handled twice, no Pop-from-empty panic, every accepted message handled at quiescence without a later send, pause/resume semantics, handler re-entrancy, and termination of the consumer when nothing may be processed (no spin).",
-  "Bounds K, goroutine pool, <=3 messages (evidence lists them and whether some schedule is not quiescent at K); ring buffer replaced by a FIFO summary justified by C02; sequential consistency for sync/atomic; counterexamples confirmed by replaying the schedule on the real SSA in the interpreter (not natively).",
+  "Bounds K, goroutine pool, <=3 messages (evidence lists them and whether some schedule is not quiescent at K); ring buffer replaced by a FIFO summary in the BMC jobs, justified by C02 and by the ring_concurrent_* jobs of this check (the REAL RingQueue under two producers and an optional consumer, every schedule with <= P preemptions, happens-before race detector, symbolic items/fill/wrap position); sequential consistency for sync/atomic; counterexamples confirmed by replaying the schedule on the real SSA in the interpreter (not natively).",
   "DESIGN.md §3 C01, §2.2"),
- "C02": ("symgo+tsgen", "model_checking", TECH_A + "; per-sender order under concurrency: " + TECH_B,
-  "Ring buffer against a reference FIFO: all operation sequences of length L from New(size), sizes 1..4, plus one inductive Push/Pop/PopMany step from every valid ring state of capacity <= maxmod (payloads symbolic); stash/unstash order and the kill flag on the real Context; per-sender FIFO for two messages of one sender racing a second sender under every interleaving within K steps (tsgen).",
+ "C02": ("symgo+tsgen", "model_checking", TECH_A + "; per-sender order under concurrency: " + TECH_B + "; real ring under concurrent producers/consumer: " + TECH_P,
+  "Ring buffer against a reference FIFO: all operation sequences of length L from New(size), sizes 1..4, plus one inductive Push/Pop/PopMany step from every valid ring state of capacity <= maxmod (payloads symbolic); stash/unstash order and the kill flag on the real Context; per-sender FIFO for two messages of one sender racing a second sender under every interleaving within K steps (tsgen); the real RingQueue under two producers (+ optional consumer) for every schedule with <= P preemptions: every accepted item out exactly once, per-producer order, no empty slot, no data race.",
   "Bounds L, size, maxmod, K in evidence; sync.Mutex and sync/atomic modelled in the engine.",
   "DESIGN.md §3 C02"),
  "C03": ("symgo+tsgen", "model_checking", TECH_A + "; mailbox wake-up job: " + TECH_B,
@@ -29,8 +30,8 @@ CLAIMED = {
   "One future, one forwarder; timer replaced by a thread (not-earlier-than-timeout NOT decided); <=3 Asks of one asker; deterministic delivery inside the world.",
   "DESIGN.md §3 C04"),
  "C07": ("symgo+tsgen", "model_checking", TECH_B + "; status table: " + TECH_A,
-  "Real Start() run in setup, its guardian goroutine captured as a thread; two concurrent Stop() calls, root termination, optional stop timeout and external context cancel under every interleaving within K steps: every Stop returns, no goroutine blocked forever, one winner, status stopped; plus every sequence of <=3 Start/Stop calls follows the error table.",
-  "Root Kill, Scheduler.Stop, time.After summarised; no remoting/cluster in the Start chain; two Stop callers.",
+  "Real Start() run in setup, its guardian goroutine captured as a thread; a Stop() caller racing a second Stop() or a second Start() caller, root termination, optional stop timeout and external context cancel (also cancel alone, with no Stop call) under every interleaving within K steps: every call returns, no goroutine blocked forever, one winner, a concurrent Start is rejected and never re-runs the start chain, the root is killed exactly once, the scheduler stopped once, status stopped; plus every sequence of <=3 (thorough 5) real Start/Stop calls follows the error table.",
+  "Root Kill, Scheduler.Stop, time.After and the start chain of a second Start summarised by ghost counters; no remoting/cluster in the Start chain; termination of the actor tree itself is C06's lemma.",
   "DESIGN.md §3 C07"),
  "C15": ("symgo", "model_checking", TECH_A,
   LEMMA + "Each ActorRef-taking operation (Tell, Kill immediate/poison, Watch, Unwatch, Ping, Ask/Reply, PipeTo) issued across two harness systems joined by an in-memory wire runs the real findMailbox -> remoting mailbox -> EncodeEnvelopWithRemoting -> DecodeEnvelopWithRemoting -> HandleRemotingEnvelop path with symbolic message contents; same observable effect as the local run.",
@@ -61,7 +62,7 @@ CLAIMED = {
   "F<=3 frames, bodies <=2 bytes, bounded number of short reads; real sockets/TLS/concurrent senders outside.",
   "DESIGN.md §3 C11"),
  "C12": ("symgo", "model_checking", TECH_A,
-  "For every message type in the wire registry: symbolic value (full-width integers, strings/bytes of every length 0..maxlen with symbolic content, nested payloads, valid refs) -> real EncodeEnvelopWithRemoting -> real DecodeEnvelopWithRemoting -> field-wise equality and unchanged envelope metadata; primitive writer/reader agreement for every supported type incl. varints, reflection path and length-prefix boundaries; registry coverage guard.",
+  "For every message type in the wire registry: symbolic value (full-width integers, strings/bytes of every length 0..maxlen with symbolic content, nested payloads, valid refs) -> real EncodeEnvelopWithRemoting -> real DecodeEnvelopWithRemoting -> field-wise equality and unchanged envelope metadata; primitive writer/reader agreement for every supported type incl. varints, reflection path and length-prefix boundaries; payload lengths across the writer's buffer-growth boundaries (every length in 190..270 quick, 0..1100 thorough, contents symbolic) for the types with a variable-size field; registry coverage guard.",
   "Size bounds as in evidence; int fields that travel as int32 assumed in range; time.Time abstracted to UnixNano.",
   "DESIGN.md §3 C12"),
  "C13": ("symgo", "model_checking", TECH_A,
@@ -69,8 +70,8 @@ CLAIMED = {
   "Input length bounds per decoder in evidence; allocation budget 65536 elements; representative values for large sizes.",
   "DESIGN.md §3 C13"),
  "C14": ("symgo", "model_checking", TECH_A,
-  "Receiver: connection cut after every byte offset (EOF or error), optional undecodable frame: delivered = exactly the decodable frames completely before the cut, intact, in order, once; actor stops. Sender: write-failure schedule x reconnect limit on the real Enqueue/backoff path: written xor dead-lettered, recovery, encode failure not retried, caller not put to sleep (open known finding).",
-  "F=2..3 frames; re-dial refused; time.Sleep recorded by stub / measured natively.",
+  "Receiver: connection cut after every byte offset (EOF or error), optional undecodable frame: delivered = exactly the decodable frames completely before the cut, intact, in order, once; actor stops. Sender: write-failure schedule x reconnect limit on the real Enqueue/backoff path: written xor dead-lettered, recovery, encode failure not retried, caller not put to sleep (open known finding); with net.Dial redirected to a fake peer: a symbolic per-attempt schedule of refused dials / established connections whose frame write fails, attempts bounded by the reconnect limit, recovery once reachable.",
+  "F=2..3 frames; <=4 (6) redial attempts; time.Sleep recorded by stub / measured natively; the redial job's counterexamples are confirmed by concrete re-execution in the interpreter (net.Dial cannot be redirected natively).",
   "DESIGN.md §3 C14"),
  "C16": ("symgo", "model_checking", TECH_A,
   "Every lattice law of the statement is an assertion over symbolic 64-bit counters and enumerated presence patterns (nil map / absent / explicit zero / present) for vectors over k node ids; Compare is checked against the point-wise order under every map iteration order.",
@@ -84,13 +85,16 @@ CLAIMED = {
   "Every sequence of L operations {Subscribe, Unsubscribe, UnsubscribeAll, Publish} x 2 subscribers x 2 event types on the real eventStream against a reference set; termination removes, restart keeps subscriptions.",
   "L<=4; sequential (atomicity by the RWMutex is not explored as schedules).",
   "DESIGN.md §3 C19"),
+ "C10": ("symgo", "model_checking", TECH_P,
+  "Bounded scenario set on a LIVE mini system (real System, root guard actor, Contexts, UnboundedMailbox and consumer goroutines, eventStream, Future): 2-3 goroutines call ActorSystem.ActorOf/Tell/Ask/Kill/FindActor, event-stream Subscribe/Publish, Future Result/Close/PipeTo and share one ActorRef while actors are spawned, fail (supervised), reply and terminate. Every schedule with at most P preemptions (quick 1, thorough 2) at sync / sync/atomic / channel / go operations is executed on the real SSA with a vector-clock happens-before race detector over every load, store and map access: no data race, no panic/fatal, no deadlock, actor tree consistent at quiescence, same name spawned concurrently wins once, concurrent Asks each get a reply.",
+  "Ten fixed scenarios, not the open set of call sites; preemption bound P relative to a FIFO scheduler at blocking points; plain accesses between sync operations are not schedule points (races are still detected by happens-before, independent of the schedule point granularity); remoting and cluster are not started; struct-level vs field-level conflicts and accesses inside engine-modelled std functions are not tracked (can only hide a race). Found and repaired: concurrent map writes on the root's children map (fix 8d6473b).",
+  "DESIGN.md §9.6"),
 }
 
 NA = {
 }
 DEFAULT_NA = "check not built yet (framework under construction; see DESIGN.md for the plan)"
 FIXED_NA = {
- "C10": "data-race freedom of the whole concurrent API under all interleavings is a happens-before property over an open set of call sites and real goroutines; no bounded symbolic encoding of context.go+system.go+killed_handler.go together is within reach of the SSA encoders built here (DESIGN.md §4)",
  "C18": "gossip convergence is a liveness property of N NodeActors over remoting with timers, failure detection and rate limiters; its state and fairness assumption are beyond bounded symbolic execution of the real code (DESIGN.md §4); its algebraic core is decided under C16/C17",
 }
 
@@ -126,7 +130,7 @@ m = {
  },
  "engines": [
   {"name": "symgo", "path": "/verif/engine/symgo", "serves_properties": sorted(k for k, v in CLAIMED.items() if v[0] in ("symgo", "symgo+tsgen")),
-   "kind_free_text": "symbolic interpreter for go/ssa (fork of x/tools ssa/interp): scalars are SMT bit-vector terms, stateless dynamic symbolic execution over decision trails, z3 over one live pipe per worker, counterexamples replayed natively via go test -overlay"},
+   "kind_free_text": "symbolic interpreter for go/ssa (fork of x/tools ssa/interp): scalars are SMT bit-vector terms, stateless dynamic symbolic execution over decision trails, z3 over one live pipe per worker, counterexamples replayed natively via go test -overlay; preemptive mode: bounded-preemption schedule choices in the trail, vector-clock happens-before race detector, solver-free concrete re-execution of counterexamples"},
   {"name": "tsgen", "path": "/verif/engine/tsgen", "serves_properties": sorted(k for k, v in CLAIMED.items() if v[0] in ("tsgen", "symgo+tsgen")),
    "kind_free_text": "SSA subset -> pc-indexed transition relation; bounded model checking with the schedule as a symbolic vector"},
  ],
